@@ -21,6 +21,7 @@ FAMILIES = {
     "indexsweep": {"model": _STACK_MODEL, "spec": _STACK_SPEC},
     "nesting": {"model": _STACK_MODEL, "spec": _STACK_SPEC},
     "policy": {"model": _STACK_MODEL, "spec": _STACK_SPEC},
+    "awkward": {"spec": {"imports": "Base AwkCorr", "type": "acase", "fn": "acheck"}},
     "transfer": {"model": {"imports": "Base StackImpl StackSpecCorr TransferCorr TransferCorrM", "type": "tcase", "fn": "tcheck_model"},
                  "spec": {"imports": "Base StackSpec StackSpecCorr TransferCorr", "type": "tcase", "fn": "tcheck_spec"}},
 }
@@ -32,6 +33,10 @@ PROPS = {
     "C03": {"props_file": "Props/C03.v", "families": ["hist"], "design_ref": "DESIGN.md §8 C03",
             "level_text": "Theorems c03_*: every state reachable from a constructor with capacity k by any history holds <= k elements and answers Len/Cap/Avail/IsFull with n, k, k-n, n==k; without capacity -1/-1/false; Push keeps the earliest offered values; Insert on a full stack is a no-op. Proved from the refinement theorem plus a capacity invariant of the specification.",
             "technique": "Coq invariant proof over all histories (corollary of the refinement theorem) + differential correspondence check"},
+    "C08": {"props_file": "Props/C08.v", "families": ["indexsweep", "awkward"], "design_ref": "DESIGN.md §8 C08",
+            "level_text": "Index part proved: every history with arbitrary Go-int indices (MinInt/MaxInt included) runs without Panic in the regenerated raw-slot model and never reads or overwrites the configuration slot; non-addressing indices make Index/Remove/Replace/Swap fail with the state untouched; -k / oversize indices address what the options promise. Value part: panics on awkward Go values live in reflect and cannot be proved over a model of Go; it is decided by the exhaustive awkward-value family (24 methods x 52 values x receiver states + observer battery) and, for the two alias converters, by the theorems of C12.",
+            "technique": "Coq proof over the regenerated index/guard fragments (all ints) + exhaustive boundary sweep and awkward-value differential families",
+            "assumptions": ["the value part (arbitrary Go values through reflect) is covered by exhaustive enumeration of a 52-value catalogue, not by a theorem"]},
     "C13": {"props_file": "Props/C13.v", "families": ["nesting"], "design_ref": "DESIGN.md §8 C13",
             "level_text": "Theorems c13_*: with the option on Push stores exactly the non-Stack values (in order, up to capacity); switching never touches elements; CanNest = option off = a pushed Stack would be stored; IsNesting = some element is a Stack/alias; in every reachable state.",
             "technique": "Coq proof over the regenerated list model + differential correspondence check (native/alias/pointer-to-alias values)"},
